@@ -307,7 +307,10 @@ func gen(seed uint64, tier string, o *hx.Out) {
 	// decryption of bytes that encryption did not produce: ragged lengths, invalid pads, empty input
 	for i := 0; i < nD; i++ {
 		var c []byte
-		switch r.Intn(4) {
+		dKey, dIV, dMode := r.Bytes(16), iv(), modes[r.Intn(4)]
+		switch r.Intn(6) {
+		case 4, 5: // a genuine ciphertext (made by crypto/cipher): must decrypt to the message
+			c, _ = oracle(dMode, dKey, currentIV(dIV), message(r, r.Intn(80)))
 		case 0:
 			c = r.Bytes(r.Intn(70)) // mostly not a multiple of 16
 		case 1:
@@ -317,7 +320,7 @@ func gen(seed uint64, tier string, o *hx.Out) {
 		default:
 			c = r.Bytes(16*(1+r.Intn(4)) + r.Intn(2))
 		}
-		emit(fmt.Sprintf("D %d %s %s %s %s", next(), modes[r.Intn(4)], hx.Hex(r.Bytes(16)), iv(), hx.Hex(c)))
+		emit(fmt.Sprintf("D %d %s %s %s %s", next(), dMode, hx.Hex(dKey), dIV, hx.Hex(c)))
 	}
 	// histories of 2..4 helper calls with SetIV in between, on reused key / IV / in buffers
 	nQ := 200
